@@ -194,5 +194,246 @@ Proof.
   destruct (negb rfound); [exact I|]. apply IH, H2.
 Qed.
 End Solve.
-End Tie.
 
+(* ------------------------------------------------------------------ _set_criterion_row *)
+Lemma set2_m1row (M : mat) j v : (0 < length M)%nat ->
+  set2 M (-1) (Z.of_nat j) v = upd_nth M (length M - 1) (upd_nth (nth (length M - 1) M []) j v).
+Proof. intro Hl. unfold set2. rewrite row2_m1, widx_m1, widx_nat, !Nat2Z.id by exact Hl. reflexivity. Qed.
+
+Lemma nth_row_loop (g : nat -> T -> T) : forall f j row k, (j + f <= length row)%nat ->
+  nth k (row_loop g f j row) nzero =
+    if Nat.leb j k && Nat.ltb k (j + f) then g k (nth k row nzero) else nth k row nzero.
+Proof.
+  induction f as [|f IH]; intros j row k Hj; cbn [row_loop].
+  - replace (Nat.ltb k (j + 0)) with (Nat.ltb k j) by (f_equal; lia).
+    destruct (Nat.leb j k) eqn:E1; cbn [andb]; [|reflexivity].
+    apply Nat.leb_le in E1. replace (Nat.ltb k j) with false by (symmetry; apply Nat.ltb_ge; lia). reflexivity.
+  - rewrite IH by (rewrite upd_nth_length; lia).
+    destruct (Nat.eq_dec k j) as [->|Hne].
+    + rewrite nth_upd_nth_eq by lia.
+      replace (Nat.leb (S j) j) with false by (symmetry; apply Nat.leb_gt; lia). cbn [andb].
+      rewrite Nat.leb_refl. replace (Nat.ltb j (j + S f)) with true by (symmetry; apply Nat.ltb_lt; lia). reflexivity.
+    + rewrite nth_upd_nth_neq by exact Hne.
+      assert (E : Nat.leb (S j) k && Nat.ltb k (S j + f) = Nat.leb j k && Nat.ltb k (j + S f)).
+      { destruct (Nat.leb (S j) k) eqn:A, (Nat.ltb k (S j + f)) eqn:B, (Nat.leb j k) eqn:C, (Nat.ltb k (j + S f)) eqn:D;
+          try reflexivity; exfalso;
+          repeat match goal with
+                 | H : Nat.leb _ _ = true |- _ => apply Nat.leb_le in H
+                 | H : Nat.leb _ _ = false |- _ => apply Nat.leb_gt in H
+                 | H : Nat.ltb _ _ = true |- _ => apply Nat.ltb_lt in H
+                 | H : Nat.ltb _ _ = false |- _ => apply Nat.ltb_ge in H
+                 end; lia. }
+      rewrite E. reflexivity.
+Qed.
+
+Lemma upd_nth_last {A} : forall (l : list A) n v, length l = S n -> upd_nth l n v = firstn n l ++ [v].
+Proof.
+  induction l as [|x l IH]; intros n v Hl; [discriminate|]. destruct n as [|n]; cbn in *.
+  - destruct l; [reflexivity|discriminate].
+  - f_equal. apply IH. lia.
+Qed.
+
+Section Crit.
+Variables (L nc : nat) (c : list T) (basis : list nat).
+Hypothesis Hc : (length c <= nc)%nat.
+Hypothesis Hbl : length basis = L.
+Hypothesis Hbr : forall i, (i < L)%nat -> (nth i basis 0 < nc)%nat.
+
+Lemma crit_loop0_tie : forall f j (Tb : mat) ok, rect (S L) nc Tb -> (j + f <= length c)%nat ->
+  gen_set_criterion_row_loop0 f (Z.of_nat j) Tb ok c =
+    (upd_nth Tb L (row_loop (fun j _ => vget c j) f j (nth L Tb [])), ok).
+Proof.
+  induction f as [|f IH]; intros j Tb ok HT Hj; cbn [gen_set_criterion_row_loop0 row_loop].
+  - rewrite upd_nth_same. reflexivity.
+  - destruct HT as [Hl Hr]. change (- (1))%Z with (-1)%Z.
+    rewrite inb_nat, inb2_m1row by (rewrite ?Hl; cbn [Nat.sub]; rewrite ?Nat.sub_0_r, ?Hr; lia).
+    rewrite !andb_true_r, set2_m1row, Nat2Z.id by lia. rewrite Hl. cbn [Nat.sub]. rewrite Nat.sub_0_r.
+    replace (Z.of_nat j + 1)%Z with (Z.of_nat (S j)) by lia.
+    rewrite IH; [|apply rect_upd_row; [split; assumption|rewrite upd_nth_length; apply Hr; lia]|lia].
+    rewrite nth_upd_nth_eq by lia. rewrite upd_nth_twice. reflexivity.
+Qed.
+
+Lemma crit_loop2_tie i m : (i < L)%nat -> forall f j (Tb : mat) ok, rect (S L) nc Tb -> (j + f <= nc)%nat ->
+  gen_set_criterion_row_loop2 f (Z.of_nat j) Tb ok (Z.of_nat i) m =
+    (upd_nth Tb L (row_loop (fun j x => nsub x (nmul (nth j (nth i Tb []) nzero) m)) f j (nth L Tb [])), ok).
+Proof.
+  intros Hi. induction f as [|f IH]; intros j Tb ok HT Hj; cbn [gen_set_criterion_row_loop2 row_loop].
+  - rewrite upd_nth_same. reflexivity.
+  - destruct HT as [Hl Hr]. change (- (1))%Z with (-1)%Z.
+    rewrite inb2_nat, inb2_m1row by (rewrite ?Hl; cbn [Nat.sub]; rewrite ?Nat.sub_0_r, ?Hr; lia).
+    rewrite !andb_true_r, set2_m1row, get2_m1row, get2_nat by lia. rewrite Hl. cbn [Nat.sub]. rewrite Nat.sub_0_r.
+    replace (Z.of_nat j + 1)%Z with (Z.of_nat (S j)) by lia.
+    rewrite IH; [|apply rect_upd_row; [split; assumption|rewrite upd_nth_length; apply Hr; lia]|lia].
+    rewrite nth_upd_nth_eq by lia. rewrite nth_upd_nth_neq by lia. rewrite upd_nth_twice. unfold get. reflexivity.
+Qed.
+
+Definition crit_step (Tb : mat) (crit : list T) (i : nat) : list T :=
+  let mult := vget crit (nth i basis 0%nat) in map2 (fun x y => nsub x (nmul y mult)) crit (nth i Tb []).
+
+Lemma crit_loop1_tie (Tb0 : mat) : rect (S L) nc Tb0 -> forall f i crit ok, length crit = nc -> (i + f <= L)%nat ->
+  gen_set_criterion_row_loop1 f (Z.of_nat i) (upd_nth Tb0 L crit) ok (zs basis) =
+    (upd_nth Tb0 L (fold_left (crit_step Tb0) (seq i f) crit), ok).
+Proof.
+  intros [Hl Hr]. induction f as [|f IH]; intros i crit ok Hcr Hi; cbn [gen_set_criterion_row_loop1 seq fold_left]; [reflexivity|].
+  assert (HT : rect (S L) nc (upd_nth Tb0 L crit)) by (apply rect_upd_row; [split; assumption|exact Hcr]).
+  change (- (1))%Z with (-1)%Z. rewrite Nat2Z.id, nth_zs.
+  rewrite inb_nat by (rewrite zs_length; lia).
+  rewrite inb2_m1row by (rewrite ?upd_nth_length, ?Hl; cbn [Nat.sub]; rewrite ?Nat.sub_0_r, ?nth_upd_nth_eq by lia; try rewrite Hcr; try apply Hbr; lia).
+  rewrite get2_m1row by (rewrite upd_nth_length; lia). rewrite upd_nth_length, Hl. cbn [Nat.sub]. rewrite Nat.sub_0_r.
+  unfold get at 1. rewrite nth_upd_nth_eq by lia. fold (vget crit (nth i basis 0%nat)).
+  assert (Hnc : ncols2 (upd_nth Tb0 L crit) = Z.of_nat nc) by (unfold ncols2; destruct HT as [_ HTr]; rewrite HTr by lia; reflexivity).
+  rewrite Hnc. replace (Z.to_nat (Z.of_nat nc - 0)) with nc by lia. rewrite !andb_true_r.
+  pose proof (crit_loop2_tie i (vget crit (nth i basis 0%nat)) ltac:(lia) nc 0 (upd_nth Tb0 L crit) ok HT ltac:(lia)) as E2.
+  change (Z.of_nat 0) with 0%Z in E2. rewrite E2. clear E2.
+  rewrite nth_upd_nth_eq by lia. rewrite nth_upd_nth_neq by lia. rewrite upd_nth_twice.
+  rewrite <- Hcr at 1. rewrite row_loop_full. unfold mapi.
+  rewrite (mapi_from_map2 (fun a b => nsub a (nmul b (vget crit (nth i basis 0%nat)))) crit (nth i Tb0 []) 0 [] eq_refl)
+    by (rewrite Hr by lia; lia).
+  replace (Z.of_nat i + 1)%Z with (Z.of_nat (S i)) by lia.
+  fold (crit_step Tb0 crit i). apply IH; [|lia].
+  unfold crit_step. cbv zeta. rewrite length_map2, Hcr, Hr by lia. apply Nat.min_id.
+Qed.
+
+Lemma fill2_lastrow_from (Tb : mat) k v : rect (S L) nc Tb -> (k <= nc)%nat ->
+  fill2 Tb (Ix (-1)) (Sl (Bnd (Z.of_nat k)) BndEnd) v =
+    upd_nth Tb L (mapi (fun j x => if Nat.leb k j then v else x) (nth L Tb [])).
+Proof.
+  intros [Hl Hr] Hk. unfold fill2. cbn [sel_lo sel_hi]. rewrite widx_m1, Hl by lia. cbn [Nat.sub]. rewrite Nat.sub_0_r.
+  apply (nth_ext _ _ [] []); [rewrite mapz_from_length, upd_nth_length; reflexivity|].
+  intros i Hi. rewrite mapz_from_length in Hi. rewrite nth_mapz_from by exact Hi. rewrite Z.add_0_l.
+  destruct (Nat.eq_dec i L) as [->|Hne].
+  - replace (Z.of_nat L <=? Z.of_nat L)%Z with true by (symmetry; apply Z.leb_le; lia).
+    replace (Z.of_nat L <? Z.of_nat L + 1)%Z with true by (symmetry; apply Z.ltb_lt; lia). cbn [andb].
+    rewrite nth_upd_nth_eq by lia. unfold fill1, mapi. cbn [sel_lo sel_hi bnd_val]. rewrite widx_nat.
+    apply (nth_ext _ _ nzero nzero); [rewrite mapz_from_length, mapi_from_length; reflexivity|].
+    intros j Hj. rewrite mapz_from_length in Hj. rewrite nth_mapz_from by exact Hj. rewrite Z.add_0_l.
+    rewrite (mapi_from_nth _ nzero nzero _ 0 j) by exact Hj. cbn [Nat.add].
+    rewrite Hr in * by lia.
+    replace (Z.of_nat j <? Z.of_nat nc)%Z with true by (symmetry; apply Z.ltb_lt; lia). rewrite andb_true_r.
+    destruct (Nat.leb k j) eqn:E; [apply Nat.leb_le in E|apply Nat.leb_gt in E].
+    + replace (Z.min (Z.of_nat nc) (Z.max 0 (Z.of_nat k)) <=? Z.of_nat j)%Z with true by (symmetry; apply Z.leb_le; lia). reflexivity.
+    + replace (Z.min (Z.of_nat nc) (Z.max 0 (Z.of_nat k)) <=? Z.of_nat j)%Z with false by (symmetry; apply Z.leb_gt; lia). reflexivity.
+  - rewrite nth_upd_nth_neq by exact Hne.
+    destruct ((Z.of_nat L <=? Z.of_nat i)%Z && (Z.of_nat i <? Z.of_nat L + 1)%Z) eqn:E; [|reflexivity].
+    apply andb_prop in E. destruct E as [E1 E2]. apply Z.leb_le in E1. apply Z.ltb_lt in E2. lia.
+Qed.
+
+Theorem gen_set_criterion_row_tie (Tb : mat) : rect (S L) nc Tb ->
+  gen_set_criterion_row c (zs basis) Tb = (set_criterion_row c basis Tb, true).
+Proof.
+  intros HT. pose proof HT as [Hl Hr]. unfold gen_set_criterion_row, set_criterion_row. cbv zeta.
+  replace (Z.to_nat (Z.of_nat (length c) - 0)) with (length c) by lia.
+  pose proof (crit_loop0_tie (length c) 0 Tb true HT ltac:(lia)) as E0. change (Z.of_nat 0) with 0%Z in E0. rewrite E0. clear E0.
+  set (r0 := row_loop (fun j _ => vget c j) (length c) 0 (nth L Tb [])).
+  assert (Hr0 : length r0 = nc) by (unfold r0; rewrite row_loop_length; apply Hr; lia).
+  assert (HT1 : rect (S L) nc (upd_nth Tb L r0)) by (apply rect_upd_row; assumption).
+  change (- (1))%Z with (-1)%Z. rewrite widx_m1, upd_nth_length, Hl by (rewrite upd_nth_length; lia).
+  cbn [Nat.sub]. rewrite Nat.sub_0_r, inb_nat by (rewrite upd_nth_length; lia). cbn [andb].
+  rewrite (fill2_lastrow_from _ (length c) nzero HT1 Hc). rewrite nth_upd_nth_eq by lia. rewrite upd_nth_twice.
+  rewrite zs_length, Hbl. replace (Z.to_nat (Z.of_nat L - 0)) with L by lia.
+  set (crit0 := mapi (fun j x => if Nat.leb (length c) j then nzero else x) r0).
+  assert (Hcrit0 : crit0 = tabv nc (fun j => if Nat.ltb j (length c) then vget c j else nzero)).
+  { apply (nth_ext _ _ nzero nzero).
+    - unfold crit0, mapi. rewrite mapi_from_length, tabv_length. exact Hr0.
+    - intros j Hj. unfold crit0, mapi in *. rewrite mapi_from_length, Hr0 in Hj.
+      rewrite (mapi_from_nth _ nzero nzero _ 0 j) by lia. cbn [Nat.add].
+      rewrite nth_tabv_lt by exact Hj.
+      unfold r0. rewrite nth_row_loop by (rewrite Hr; lia). cbn [Nat.leb andb Nat.add].
+      destruct (Nat.ltb j (length c)) eqn:E.
+      + apply Nat.ltb_lt in E. replace (Nat.leb (length c) j) with false by (symmetry; apply Nat.leb_gt; lia). reflexivity.
+      + apply Nat.ltb_ge in E. replace (Nat.leb (length c) j) with true by (symmetry; apply Nat.leb_le; lia). reflexivity. }
+  assert (Hlc : length crit0 = nc) by (unfold crit0, mapi; rewrite mapi_from_length; exact Hr0).
+  pose proof (crit_loop1_tie Tb HT L 0 crit0 true Hlc ltac:(lia)) as E1. change (Z.of_nat 0) with 0%Z in E1. rewrite E1. clear E1.
+  f_equal. unfold ncols. rewrite (Hr 0%nat ltac:(lia)). rewrite <- Hcrit0.
+  change (fold_left _ (seq 0 L) crit0) with (fold_left (crit_step Tb) (seq 0 L) crit0).
+  generalize (fold_left (crit_step Tb) (seq 0 L) crit0). intro cr.
+  apply upd_nth_last, Hl.
+Qed.
+End Crit.
+
+(* ------------------------------------------------------------------ get_solution *)
+Lemma Zltb_nat a b : (Z.of_nat a <? Z.of_nat b)%Z = Nat.ltb a b.
+Proof. destruct (Nat.ltb a b) eqn:E; [apply Nat.ltb_lt in E; apply Z.ltb_lt; lia|apply Nat.ltb_ge in E; apply Z.ltb_ge; lia]. Qed.
+
+Section GetSol.
+Variables (L nc n : nat) (Tb : mat) (basis : list nat) (bsigns : list bool).
+Hypothesis HT : rect (S L) nc Tb.
+Hypothesis Hnc : (S L <= nc)%nat.
+Hypothesis Hbl : length basis = L.
+Hypothesis Hsl : length bsigns = L.
+
+Definition gsx_step (x : list T) (i : nat) : list T :=
+  let b := nth i basis 0%nat in if Nat.ltb b n then set_nth x b (get Tb i (nc - 1)) else x.
+Lemma gs_loop0_tie : forall f i x ok, length x = n -> (i + f <= L)%nat ->
+  gen_get_solution_loop0 f (Z.of_nat i) x ok Tb (zs basis) (Z.of_nat n) = (fold_left gsx_step (seq i f) x, ok).
+Proof.
+  induction f as [|f IH]; intros i x ok Hx Hi; cbn [gen_get_solution_loop0 seq fold_left]; [reflexivity|].
+  destruct HT as [Hl Hr]. rewrite inb_nat by (rewrite zs_length; lia). rewrite Nat2Z.id, nth_zs, Zltb_nat, andb_true_r.
+  replace (Z.of_nat i + 1)%Z with (Z.of_nat (S i)) by lia. unfold gsx_step at 2. cbv zeta.
+  destruct (Nat.ltb (nth i basis 0%nat) n) eqn:E.
+  - apply Nat.ltb_lt in E. change (- (1))%Z with (-1)%Z. rewrite inb2_m1 by (rewrite ?Hr; lia).
+    rewrite inb_nat by lia. rewrite !andb_true_r, Nat2Z.id, get2_m1 by (rewrite ?Hr; lia). rewrite Hr by lia.
+    rewrite upd_nth_set_nth. apply IH; [rewrite <- upd_nth_set_nth, upd_nth_length; exact Hx|lia].
+  - rewrite ?andb_true_r. apply IH; [exact Hx|lia].
+Qed.
+
+Definition lam_entry (j : nat) : T :=
+  let v := get Tb L (nc - L - 1 + j) in
+  if negb (neqb v nzero) && nth j bsigns false then nmul v (nsub nzero none_) else v.
+Lemma gs_loop1_tie : forall f j rest ok, (f <= length rest)%nat -> (j + f <= L)%nat ->
+  gen_get_solution_loop1 f (Z.of_nat j) (map lam_entry (seq 0 j) ++ rest) ok Tb bsigns (Z.of_nat (nc - L - 1)) =
+    (map lam_entry (seq 0 (j + f)) ++ skipn f rest, ok).
+Proof.
+  induction f as [|f IH]; intros j rest ok Hf Hj; cbn [gen_get_solution_loop1 skipn].
+  - rewrite Nat.add_0_r. reflexivity.
+  - destruct rest as [|x rest]; [cbn in Hf; lia|]. cbn [length] in Hf. destruct HT as [Hl Hr].
+    assert (Hlen : length (map lam_entry (seq 0 j)) = j) by (rewrite map_length, seq_length; reflexivity).
+    change (- (1))%Z with (-1)%Z. rewrite <- Nat2Z.inj_add.
+    rewrite inb2_m1row by (rewrite ?Hl; cbn [Nat.sub]; rewrite ?Nat.sub_0_r, ?Hr; lia).
+    rewrite inb_nat by (rewrite app_length, Hlen; cbn; lia). rewrite !andb_true_r, Nat2Z.id.
+    rewrite get2_m1row by lia. rewrite Hl. cbn [Nat.sub]. rewrite Nat.sub_0_r.
+    set (v := get Tb L (nc - L - 1 + j)).
+    assert (Hupd : forall y w, upd_nth (map lam_entry (seq 0 j) ++ y :: rest) j w = map lam_entry (seq 0 j) ++ w :: rest)
+      by (intros y w; pose proof (upd_nth_mid (map lam_entry (seq 0 j)) y w rest) as Hu; rewrite Hlen in Hu; exact Hu).
+    rewrite Hupd.
+    assert (Hnth : forall y, nth j (map lam_entry (seq 0 j) ++ y :: rest) nzero = y)
+      by (intro y; rewrite app_nth2, Hlen, Nat.sub_diag by lia; reflexivity).
+    rewrite inb_nat by (rewrite app_length, Hlen; cbn; lia). rewrite Hnth.
+    assert (Hib : inb (Z.of_nat j) bsigns = true) by (apply inb_nat; lia). rewrite Hib.
+    replace (true && (if negb (neqb v nzero) then true else true)) with true by (destruct (negb (neqb v nzero)); reflexivity).
+    rewrite andb_true_r.
+    assert (Hfin : forall y ok', y = lam_entry j ->
+      gen_get_solution_loop1 f (Z.of_nat j + 1) (map lam_entry (seq 0 j) ++ y :: rest) ok' Tb bsigns (Z.of_nat (nc - L - 1)) =
+      (map lam_entry (seq 0 (j + S f)) ++ skipn f rest, ok')).
+    { intros y ok' ->. replace (Z.of_nat j + 1)%Z with (Z.of_nat (S j)) by lia.
+      replace (map lam_entry (seq 0 j) ++ lam_entry j :: rest) with (map lam_entry (seq 0 (S j)) ++ rest)
+        by (rewrite seq_S, map_app, <- app_assoc; reflexivity).
+      rewrite IH by lia. rewrite Nat.add_succ_r. reflexivity. }
+    destruct (negb (neqb v nzero) && nth j bsigns false) eqn:E.
+    + rewrite ?andb_true_r, ?Hnth, Hupd. apply Hfin. unfold lam_entry. cbv zeta. fold v. rewrite E. reflexivity.
+    + rewrite ?andb_true_r. apply Hfin. unfold lam_entry. cbv zeta. fold v. rewrite E. reflexivity.
+Qed.
+
+Theorem gen_get_solution_tie (x lambd : list T) : length x = n -> length lambd = L ->
+  gen_get_solution Tb (zs basis) x lambd bsigns =
+    (let '(xm, lm, fn) := C04.Model.get_solution Tb basis n L bsigns in ((fn, xm, lm), true)).
+Proof.
+  intros Hx Hlam. pose proof HT as [Hl Hr]. unfold gen_get_solution, get_solution. cbv zeta.
+  rewrite Hx, Hlam, fill1_all, Hx. unfold ncols2, ncols. rewrite (Hr 0%nat ltac:(lia)).
+  replace (Z.to_nat (Z.of_nat L - 0)) with L by lia.
+  pose proof (gs_loop0_tie L 0 (repeat nzero n) true (repeat_length _ _) ltac:(lia)) as E0.
+  change (Z.of_nat 0) with 0%Z in E0. rewrite E0. clear E0.
+  replace (Z.of_nat nc - Z.of_nat L - 1)%Z with (Z.of_nat (nc - L - 1)) by lia.
+  pose proof (gs_loop1_tie L 0 lambd true ltac:(lia) ltac:(lia)) as E1. cbn [seq map app Nat.add] in E1.
+  change (Z.of_nat 0) with 0%Z in E1. rewrite E1. clear E1. rewrite skipn_all2, app_nil_r by lia.
+  change (- (1))%Z with (-1)%Z.
+  assert (Hlast : inb2 (-1) (-1) Tb = true).
+  { unfold inb2. rewrite row2_m1, !widx_m1 by (rewrite ?Hl, ?Hr; try lia; cbn [Nat.sub]; rewrite ?Nat.sub_0_r, ?Hr; lia).
+    rewrite !inb_nat; [reflexivity| |lia]. rewrite Hl. cbn [Nat.sub]. rewrite Nat.sub_0_r, Hr by lia. lia. }
+  rewrite Hlast. cbn [andb].
+  assert (Hget : get2 Tb (-1) (-1) = get Tb L (nc - 1)).
+  { unfold get2, get. rewrite row2_m1, Hl by lia. cbn [Nat.sub]. rewrite Nat.sub_0_r, Hr, widx_m1, Nat2Z.id by lia. reflexivity. }
+  rewrite Hget. unfold tabv, mone. reflexivity.
+Qed.
+End GetSol.
+End Tie.
